@@ -96,20 +96,22 @@ Proof. intros. destruct (req_mw_abort_spec maxm maxb chunks) as (_ & H2 & H3). a
 (** Response buffering (non-streaming): exact status and body, or 500 and
     none of the body.  No spill file survives. *)
 Theorem c14_response : forall maxm maxb s ops,
+  is_informational s = false ->          (* s is the final status, not an interim 1xx *)
   Forall body_op ops ->
   client_view_of (fst (resp_mw maxm maxb (HWriteHeader s false :: ops))) =
     (if body_too_large maxb (concat (hop_chunks ops))
      then plain_view 500 err500_body else plain_view s (concat (hop_chunks ops))) /\
   spill_live (snd (resp_mw maxm maxb (HWriteHeader s false :: ops))) = false.
-Proof. intros. exact (resp_mw_buffered_spec maxm maxb s ops H). Qed.
+Proof. intros maxm maxb s ops Hs H. exact (resp_mw_buffered_spec maxm maxb s ops Hs H). Qed.
 
 (** Event streams pass through unbuffered, in order, flushes included. *)
 Theorem c14_stream : forall maxm maxb s ops,
+  is_informational s = false ->
   Forall body_op ops ->
   fst (resp_mw maxm maxb (HWriteHeader s true :: ops)) =
     CWriteHeader s :: flat_map passthrough ops ++ [CWriteHeader s] /\
   spill_live (snd (resp_mw maxm maxb (HWriteHeader s true :: ops))) = false.
-Proof. intros. exact (resp_mw_stream_spec maxm maxb s ops H). Qed.
+Proof. intros maxm maxb s ops Hs H. exact (resp_mw_stream_spec maxm maxb s ops Hs H). Qed.
 
 (** Non-vacuity: a concrete body that spills and one that overflows. *)
 Example c14_example_spill :
